@@ -107,6 +107,55 @@ class Setting:
         b = args[1]
         return z3.simplify((a & b) == b)
 
+    def m_flag_guarded(self, handler):
+        """only for the declared bit-mask types of the spirv crate"""
+        def h(engine, st, fr, callee, args, ops):
+            m = re.search(r"<(?:impl )?(?:spirv::)?(\w+)", callee)
+            if not m or m.group(1) not in self.maskall:
+                raise mir.Unsupported("call to %r has neither model nor inline rule (not a declared bit-mask type)" % callee)
+            return handler(engine, st, fr, callee, args, ops)
+        return h
+
+    def m_flag_op(self, engine, st, fr, callee, args, ops):
+        """bitflags algebra (the value is its bits): |, &, ^, - (difference), ! (complement within the declared bits), intersects, is_empty,
+        union / intersection / difference / complement, is_all, all, empty"""
+        vals = [sym._deref_arg(engine, st, a) if isinstance(a, sym.Ref) else a for a in args]
+        m = re.search(r"<(?:impl )?(?:spirv::)?(\w+)(?: as \w+)?>::(\w+)$", callee)
+        name, op = m.group(1), m.group(2)
+        allb = z3.BitVecVal(self.maskall[name], 32)
+        if op in ("bitor", "union"):
+            return z3.simplify(vals[0] | vals[1])
+        if op in ("bitand", "intersection"):
+            return z3.simplify(vals[0] & vals[1])
+        if op in ("bitxor", "symmetric_difference"):
+            return z3.simplify(vals[0] ^ vals[1])
+        if op in ("sub", "difference"):
+            return z3.simplify(vals[0] & ~vals[1])
+        if op in ("not", "complement"):
+            return z3.simplify(~vals[0] & allb)
+        if op == "intersects":
+            return z3.simplify((vals[0] & vals[1]) != 0)
+        if op == "is_empty":
+            return z3.simplify(vals[0] == 0)
+        if op == "is_all":
+            return z3.simplify((vals[0] & allb) == allb)
+        if op == "all":
+            return allb
+        if op == "empty":
+            return z3.BitVecVal(0, 32)
+        raise mir.Unsupported(callee)
+
+    def m_flag_assign(self, engine, st, fr, callee, args, ops):
+        """`|=`, `&=`, `^=`, `-=`, insert, remove, toggle on a bitflags place"""
+        r = args[0]
+        a = sym._deref_arg(engine, st, r)
+        b = sym._deref_arg(engine, st, args[1]) if isinstance(args[1], sym.Ref) else args[1]
+        op = callee.rsplit("::", 1)[1]
+        new = {"bitor_assign": a | b, "insert": a | b, "bitand_assign": a & b, "bitxor_assign": a ^ b, "toggle": a ^ b,
+               "sub_assign": a & ~b, "remove": a & ~b}[op]
+        engine.write_at(st, r.root, list(r.path), z3.simplify(new))
+        return sym.UNIT
+
     def m_const(self, engine, st, fr, callee, args, ops):
         raise mir.Unsupported(callee)
 
@@ -212,6 +261,10 @@ class Setting:
             (r"<impl (spirv::)?\w+>::bits$", lambda en, st, fr, cl, a, o: sym._deref_arg(en, st, a[0]) if isinstance(a[0], sym.Ref) else a[0]),
             (r"<impl (spirv::)?\w+>::from_bits_(truncate|retain)$", self.m_from_bits_truncate),
             (r"<impl (spirv::)?\w+>::contains$", self.m_contains),
+            (r"^<(spirv::)?\w+ as (BitOr|BitAnd|BitXor|Sub|Not)>::(bitor|bitand|bitxor|sub|not)$", self.m_flag_guarded(self.m_flag_op)),
+            (r"^<(spirv::)?\w+ as (BitOrAssign|BitAndAssign|BitXorAssign|SubAssign)>::\w+_assign$", self.m_flag_guarded(self.m_flag_assign)),
+            (r"<impl (spirv::)?\w+>::(union|intersection|difference|symmetric_difference|complement|intersects|is_empty|is_all|all|empty)$", self.m_flag_guarded(self.m_flag_op)),
+            (r"<impl (spirv::)?\w+>::(insert|remove|toggle)$", self.m_flag_guarded(self.m_flag_assign)),
             (r"^Parser::<'_, '_>::\w+$", self.m_parser_method),
             (r"^Vec::<.*>::append$", self.m_vec_append),
             (r"^<u64 as From<u32>>::from$", self.m_u64_from_u32),
